@@ -20,6 +20,7 @@ type inferredFrame struct {
 	all  bool
 	why  string
 	unsafe bool
+	locks  bool // some sync Lock/Unlock is reachable
 }
 
 var frameMu sync.Mutex
@@ -136,8 +137,8 @@ func (fc *FnCtx) inferFrame(fn *ssa.Function) *inferredFrame {
 			full = f.Origin().String()
 		}
 		if _, ok := natives[full]; ok {
-			if strings.Contains(full, "sync/atomic") {
-				// writes the cell it is given: handled at the call instruction below
+			if strings.HasPrefix(full, "(*sync.Mutex)") || strings.HasPrefix(full, "(*sync.RWMutex)") {
+				res.locks = true
 			}
 			return
 		}
